@@ -5,11 +5,18 @@ Every claim is "level other": the check decides the named structural clauses
 the run-time behaviour the property is stated in.
 """
 
-_TB = ('Trusted base: the ast-based index/resolver in /verif/sa, the reader-'
-       'side tables in sa/tables.py (GNU Make, Ninja, POSIX sh, pkg-config, '
-       'GCC option grammar), host family folded to posix, and the instance '
+_TB = ('Trusted base: the ast-based index/resolver and the flow engine in '
+       '/verif/sa (flow.py: access-path value flow through locals, loops, '
+       'comprehensions, containers and repository helpers with parameters '
+       'bound; facts.py: effects, guards with polarity, control dependence, '
+       'dominance, reaching definitions, record shapes; absint.py: finite-'
+       'domain interpretation of small decision functions), the reader-side '
+       'tables in sa/tables.py (GNU Make, Ninja, POSIX sh, pkg-config, GCC '
+       'option grammar), host family folded to posix, and the instance '
        'tables confirmed by reading the code (a vanished anchor is exit 2, '
-       'never a pass). ')
+       'never a pass). Rules are facts about the resolved program, not '
+       'matches of source text: the 80 behaviour-preserving refactorings in '
+       '/verif/neutral raise no alarm (thorough tier re-checks this). ')
 
 CLAIMS = {
     'C05': {
@@ -37,10 +44,10 @@ CLAIMS = {
 CLAIMS.update({
     'C01': {
         'text': 'Decides, for all argument strings at once, the structural '
-                'clauses: (ESC-MAKE) at every site where Makefile/Writer '
-                'emits script-derived text, every Syntax member reaching the '
-                'site (through defaults and all call sites) escapes every GNU '
-                'Make metacharacter of that lexical context -- the writer\'s '
+                'clauses: (ESC-MAKE) every Syntax member escapes every GNU '
+                'Make metacharacter of the lexical contexts it is designed '
+                'for (and SYNTAX-POSITION: each kind of build-file data is '
+                'written only with the members designed for its position) -- the writer\'s '
                 'table is extracted from Writer.escape_str by summarising it '
                 'per Syntax member, the reader\'s table is sa/tables.py; '
                 '(WRITE-FLOW) in Writer.write only guarded literal text, '
